@@ -323,3 +323,59 @@ pub fn bundled_examples() -> Vec<(String, String)> {
     }
     v
 }
+
+/// the corpus of the C07 order / process differential
+pub fn order_corpus(kind: u32) -> Vec<String> {
+    let mut v: Vec<String> = vec![];
+    let mut a = sigma_ascii();
+    a.extend(sigma_uni());
+    for c in &a {
+        v.push(c.to_string());
+    }
+    if kind == 0 {
+        for c in &a {
+            for d in &a {
+                v.push(format!("{}{}", c, d));
+            }
+        }
+    } else {
+        crate::enumr::nbhd(&a, &a, 1, &mut |s| v.push(s));
+    }
+    for (_n, d) in family_samples(10) {
+        v.push(d);
+    }
+    for d in [
+        "+-------+\n|{a,b,c}|\n+-------+",
+        "+---------+\n| {x} {y} |\n| {z}     |\n+---------+",
+        ".------.\n|{k,l} |\n'------'\n# Legend:\nk = {fill:red}\nl = {stroke:blue}",
+        "\"quoted\" and {tag} text",
+        "一二三 {a}",
+    ] {
+        v.push(d.to_string());
+    }
+    v
+}
+
+/// a permutation of 0..n: 0 = identity, 1 = reverse, others = multiplication by a stride coprime to n plus an offset
+pub fn order_perm(n: usize, perm: usize, nperms: usize) -> Vec<usize> {
+    if perm == 0 || n < 3 {
+        return (0..n).collect();
+    }
+    if perm == 1 {
+        return (0..n).rev().collect();
+    }
+    fn gcd(a: usize, b: usize) -> usize {
+        if b == 0 {
+            a
+        } else {
+            gcd(b, a % b)
+        }
+    }
+    let mut stride = (n / nperms.max(2)) * perm + 1;
+    while gcd(stride, n) != 1 {
+        stride += 1;
+    }
+    let off = perm * 7919 % n;
+    (0..n).map(|i| (i * stride + off) % n).collect()
+}
+
